@@ -95,6 +95,14 @@ class AstMap:
             new_list.append(value)
 
         x_table[key] = new_list
+        # One placeholder names one student identifier, whichever table the
+        # position it stands at is recorded in (variable, function, class)
+        if key not in self.conflict_keys:
+            for other_table in (self.symbol_table, self.func_table, self.class_table):
+                if other_table is not x_table and any(value.id != other.id
+                                                      for other in other_table.get(key, [])):
+                    self.conflict_keys.append(key)
+                    break
         return len(self.conflict_keys)
 
     def add_class_to_sym_table(self, ins_node, std_node):
